@@ -62,6 +62,20 @@ Definition c04_jbody (t : ctmpl) (n : N) : jblk := fst (bgen (ct_mode t) t_outpu
 Definition c04_jprog (p : list ctmpl) (cnt : bstr -> N) : list (bstr * (bool * jblk)) :=
   map (fun t => (ct_name t, (ct_allopt t, c04_jbody t (cnt (ct_name t))))) p.
 
+(* the templates of one file in order, each with the counter the generator has reached when it visits it (scope.go's
+   counter is never reset inside a file): the next template starts where the body of this one stopped *)
+Fixpoint c04_chain (p : list ctmpl) (n : N) : list (ctmpl * N) :=
+  match p with
+  | [] => []
+  | t :: r => (t, n) :: c04_chain r (snd (bgen (ct_mode t) t_output c04_body_scope n (ct_body t)))
+  end.
+Definition c04_jprog_chain (p : list ctmpl) (n : N) : list (bstr * (bool * jblk)) :=
+  map (fun tn => (ct_name (fst tn), (ct_allopt (fst tn), c04_jbody (fst tn) (snd tn)))) (c04_chain p n).
+(* the nodes of a template in its file: the soydoc comment (whose parameters decide opt_data = opt_data || {}), the template *)
+Definition c04_doc_nodes (t : ctmpl) : list node :=
+  [NSoyDoc 0 (if ct_allopt t then [NSoyDocParam 0 [] true] else []);
+   NTemplate 0 (ct_name t) (NList 0 (bnodes (ct_body t))) (ct_ae t) false].
+
 Fixpoint c04_jcall (jp : list (bstr * (bool * jblk))) (k : nat) (name : bstr) (dv ijv : jval) : outcome bstr :=
   match k with
   | O => OutOfFuel
